@@ -20,7 +20,10 @@ EXTENDS JqUtil
 \* the spelling (for Str: the contents, without the quotes).
 Tok(tag, text) == [tag |-> tag, text |-> text]
 Sym(s) == Tok(s, s)
-LitTags == {"Num", "Str", "true", "false", "null"}
+\* "Prim": one token standing for a complete primary expression of a form this grammar does not open up
+\* (a match expression, an object literal, a regex literal, a postfix ++/--): like a literal it is an
+\* operand and never an assignment target.  Only catalogues (MC_AssignTarget) produce it.
+LitTags == {"Num", "Str", "true", "false", "null", "Prim"}
 
 \* ------------------------------------------------- the table of 3.9
 MulOps == {"*", "/", "%"}
